@@ -244,7 +244,7 @@ def AllEqualSubstitution(F, k, invert=False):
     if invert:
         add_description(newF, "Substitution with not-all-equals of arity {}".format(k))
     else:
-        add_description(newF, "Substitution with not-all-equals of arity {}".format(k))
+        add_description(newF, "Substitution with all-equals of arity {}".format(k))
 
     def aesubst(lit):
         nvars = [(abs(lit)-1)*k + i for i in range(1, k+1)]
